@@ -456,6 +456,46 @@ Definition upClose_slow (ctx : option N) (cto tL : N) (id : N) : proc :=
         Block)).
 Definition upClose_barewake := upClose_F7.
 
+(* ---- the explicit-flush handshake, both sides (iscp/upstream.go Flush / flushLoop) ----
+   Unbuffered rendezvous as flags: FFlushReady = the loop is at its select, FHanded = a caller has
+   handed over its request (with its remoteDone channel), FFlushRes = the loop offers the result,
+   FTaken = the caller took it, FRemoteDone = the caller's derived context is done (defer cancel():
+   raised on EVERY exit of Flush).  [flushServe] is one turn of the loop for an explicit flush; it
+   "returns" when the loop is back at its select. *)
+Definition FHanded : flag := 21.
+Definition FTaken : flag := 22.
+Definition FRemoteDone : flag := 23.
+Definition flushServe_with (remoteDone : bool) : proc :=
+  SetF FFlushReady true
+    (Alt (GFlag FHanded)
+         (SetF FFlushReady false (Acq LUmu LW (Rel LUmu                  (* u.flush *)
+            (SetF FFlushRes true
+               (let back := SetF FFlushRes false (Ret ONil) in
+                Alt (GFlag FTaken) back
+                    (if remoteDone then Alt (GFlag FRemoteDone) back (Alt (GFlag FRunCtx) back Block)
+                     else Alt (GFlag FRunCtx) back Block))))))
+         (Alt (GFlag FRunCtx) (SetF FFlushReady false (Ret ONil)) Block)).
+Definition flushServe := flushServe_with true.            (* AS IT IS: select {result <- | <-remoteDone | <-ctx.Done()} *)
+Definition flushServe_noRemoteDone := flushServe_with false.   (* without the abandoned-caller arm *)
+Definition upFlushCaller (ctx : option N) : proc :=
+  let leave r := SetF FRemoteDone true (Ret r) in
+  IfF FSctx (leave OStreamClosed)
+    (Alt (GFlag FFlushReady)
+         (SetF FHanded true
+            (Alt (GFlag FFlushRes) (SetF FTaken true (leave ONil))
+                 (Alt (GFlag FSctx) (leave OStreamClosed) (tg ctx (leave OCtx)))))
+         (Alt (GFlag FSctx) (leave OStreamClosed) (tg ctx (leave OCtx)))).
+
+(* ---- the wire connection's single dispatch goroutine, sequentially (continuation k = the next
+   message): a DownstreamCall goes through the 8-slot wire queue to Conn.readDownstreamCallLoop,
+   which puts it into the 1024-slot inbox WITHOUT waiting (select default: discarded when full) *)
+Definition FInboxRoom : flag := 24.
+Definition dispatchCallK (k : proc) : proc := k.
+(* ... with a wait for room instead: the consumer of the wire queue stops, the queue fills, the
+   dispatch goroutine stops *)
+Definition dispatchCallK_wait (k : proc) : proc := Alt (GFlag FInboxRoom) k (Alt (GFlag FRunCtx) k Block).
+Definition dispatchReplyK (id : N) (k : proc) : proc := SetF (FReply id) true k.
+
 (* Upstream.processResult AS IT IS (F13 repaired, 611d2de): looks the waiter up and deletes the
    entry under the stream lock, releases, then sends into the waiter's ONE-SLOT channel, which
    receives at most this one value (the entry is gone): the send never waits *)
@@ -495,6 +535,8 @@ Inductive scen :=
 | ScCloseWhilePending   (* Conn.Close while a request of another goroutine is in flight *)
 | ScCloseDuringOutage   (* Conn.Close while the connection is reconnecting and every redial fails *)
 | ScUpCloseDuringOutage (* Upstream.Close during such an outage, then Conn.Close *)
+| ScFlushAbandoned      (* pos Flush calls with a cancelled context, then Write+Flush (call under test) and Close *)
+| ScFloodThenRequest    (* pos uncollected calls, reply calls, chunks, metadata, then a request answered at once *)
 | ScUpCloseSlowList.    (* Upstream.Close, ack withheld, both deadlines expire while sent.List is in progress *)
 Inductive beh := BAnswer | BDelay | BDrop | BMisaddr | BDisconnect.
 
@@ -514,7 +556,8 @@ Definition scen_eqb (a b : scen) : bool :=
   | ScUpClose, ScUpClose | ScDownClose, ScDownClose | ScConnClose, ScConnClose
   | ScMetaAfterClose, ScMetaAfterClose | ScStateAfterLateAck, ScStateAfterLateAck
   | ScCloseWhilePending, ScCloseWhilePending | ScCloseDuringOutage, ScCloseDuringOutage
-  | ScUpCloseDuringOutage, ScUpCloseDuringOutage | ScUpCloseSlowList, ScUpCloseSlowList => true
+  | ScUpCloseDuringOutage, ScUpCloseDuringOutage | ScUpCloseSlowList, ScUpCloseSlowList
+  | ScFlushAbandoned, ScFlushAbandoned | ScFloodThenRequest, ScFloodThenRequest => true
   | _, _ => false
   end.
 
@@ -539,10 +582,12 @@ Definition scen_procs (sc : scen) (pr : params) : list proc :=
   | ScCloseDuringOutage => [reconnectHold; connClose]
   | ScUpCloseDuringOutage => [reconnectHold; upClose ctx (p_cto pr) 1]
   | ScUpCloseSlowList => [upClose_slow ctx (p_cto pr) (p_other pr) 1]      (* p_other = duration of List *)
+  | ScFlushAbandoned => [upWrite ctx; upFlush ctx (fun r => Ret r)]
+  | ScFloodThenRequest => [connRequest 2 ctx 1]
   end.
 (* which of them is the call under test *)
 Definition scen_target (sc : scen) : nat :=
-  match sc with ScStateAfterLateAck | ScCloseWhilePending | ScCloseDuringOutage | ScUpCloseDuringOutage => 1%nat | _ => 0%nat end.
+  match sc with ScStateAfterLateAck | ScCloseWhilePending | ScCloseDuringOutage | ScUpCloseDuringOutage | ScFlushAbandoned => 1%nat | _ => 0%nat end.
 
 (* what completes exchange number pos of the scenario *)
 Definition done_flag (sc : scen) (pos : N) : flag :=
@@ -553,6 +598,7 @@ Definition done_flag (sc : scen) (pos : N) : flag :=
   | ScCallWait, 0 => FCallAck
   | ScCallWait, _ => FReplyCall
   | ScUpClose, 0 => FAcked
+  | ScFlushAbandoned, _ => FFlushRes
   | _, _ => FReply 1
   end.
 
@@ -569,6 +615,7 @@ Definition scen_flags (sc : scen) (pos : N) : list flag :=
   | ScCloseDuringOutage => [FStConnected]
   | ScUpCloseDuringOutage => [FStConnected; FFlushReady; FFlushRes]
   | ScUpCloseSlowList => [FStConnected; FFlushReady; FFlushRes; FReply 1]
+  | ScFlushAbandoned => [FStConnected; FWriteRecv; FFlushReady; FFlushRes]   (* the flush loop is back at its select *)
   | _ => [FStConnected]
   end.
 
@@ -674,6 +721,9 @@ Definition blk_ok (c : blk_case) : bool :=
      | ScMetaAfterClose => outcome_eqb (b_class c) OConnClosed && (b_ms c <=? b_slack c)
                            && outcome_eqb (b_follow c) OConnClosed && (b_follow_ms c <=? b_slack c)
      | ScConnClose | ScCloseWhilePending | ScCloseDuringOutage => outcome_eqb (b_follow c) OConnClosed && (b_follow_ms c <=? b_slack c)
+     (* "later calls still work": after abandoned flushes / an inbound flood nobody collects, a call
+        that a healthy broker answers at once succeeds, and so does the Close after it *)
+     | ScFlushAbandoned | ScFloodThenRequest => outcome_eqb (b_class c) ONil && outcome_eqb (b_follow c) ONil
      | _ => outcome_eqb (b_follow c) ONil
      end.
 
